@@ -151,9 +151,9 @@ func ViewOf(tx *wire.MsgTx) *TxView {
 	return v
 }
 
-// pushes returns the data pushes of a script, or ok=false when the script
+// Pushes returns the data pushes of a script, or ok=false when the script
 // does not parse (BIP37 implementations then skip the script).
-func pushes(script []byte) ([][]byte, bool) {
+func Pushes(script []byte) ([][]byte, bool) {
 	d, err := txscript.PushedData(script)
 	if err != nil {
 		return nil, false
@@ -161,7 +161,8 @@ func pushes(script []byte) ([][]byte, bool) {
 	return d, true
 }
 
-func isPubkeyOrMultisig(script []byte) bool {
+// IsPubkeyOrMultisig classifies an output script for the P2PubkeyOnly flag.
+func IsPubkeyOrMultisig(script []byte) bool {
 	c := txscript.GetScriptClass(script)
 	return c == txscript.PubKeyTy || c == txscript.MultiSigTy
 }
@@ -177,7 +178,7 @@ func (b *Bloom) MatchAndUpdate(tx *TxView) bool {
 	m := b.Cur
 	found := m.Contains(tx.TxID[:])
 	for i, script := range tx.Outputs {
-		ps, ok := pushes(script)
+		ps, ok := Pushes(script)
 		if !ok {
 			continue
 		}
@@ -190,7 +191,7 @@ func (b *Bloom) MatchAndUpdate(tx *TxView) bool {
 			case UpdateAll:
 				m.Insert(OutPointBytes(tx.TxID, uint32(i)))
 			case UpdateP2PubkeyOnly:
-				if isPubkeyOrMultisig(script) {
+				if IsPubkeyOrMultisig(script) {
 					m.Insert(OutPointBytes(tx.TxID, uint32(i)))
 				}
 			}
@@ -204,7 +205,7 @@ func (b *Bloom) MatchAndUpdate(tx *TxView) bool {
 		if m.Contains(OutPointBytes(in.PrevHash, in.PrevIndex)) {
 			return true
 		}
-		ps, ok := pushes(in.SigScript)
+		ps, ok := Pushes(in.SigScript)
 		if !ok {
 			continue
 		}
